@@ -184,4 +184,55 @@ theorem no_state_change_without_perm
     Wire.refusedOK (Wire.runCmd (Wire.envOf store u p payloadNil voter oq) c.body) = true :=
   C18.cluster_no_action_no_data_when_denied c hc req hreq store u p payloadNil voter oq hden
 
+/-! ### no state change when no permission check passes
+
+`no_state_change_without_perm` above is relative to the expectation table, which
+declares HIGHWATER_MARK_UPDATE public because rqlite defines no permission for it.
+Read literally, the property also demands that a caller for whom NO permission check
+passes cannot change the node's state at all. That statement is false of the code:
+the highwater-mark update is delivered to the CDC service (which then deletes queued
+change events up to the given mark) without any check. It is kept visible here,
+proved under the exclusion of that one command, and refuted at a concrete input. -/
+
+/-- full statement: whatever the command, if every permission check fails, nothing is changed -/
+def no_unauthenticated_state_change_full : Prop :=
+  ∀ c ∈ Gen.ClusterCmds.cmds, ∀ env : Wire.Env, (∀ p, env (.perm p) = false) →
+    Wire.noMutation (Wire.runCmd env c.body) = true
+
+theorem partial_cases_checked :
+    Gen.ClusterCmds.cmds.all (fun c => c.name == "HIGHWATER_MARK_UPDATE" || Wire.checkNoPermNoMutation c.body) = true := by
+  decide +kernel
+
+/-- ∀ command case other than HIGHWATER_MARK_UPDATE, ∀ payload, ∀ outcomes of the
+other conditions: when every permission check fails, no state-changing action runs,
+nothing is streamed and nothing crashes. -/
+theorem no_unauthenticated_state_change_partial (c : Gen.ClusterCmds.Cmd) (hc : c ∈ Gen.ClusterCmds.cmds)
+    (hx : c.name ≠ "HIGHWATER_MARK_UPDATE") (env : Wire.Env) (h : ∀ p, env (.perm p) = false) :
+    Wire.noMutation (Wire.runCmd env c.body) = true := by
+  have hall := partial_cases_checked
+  rw [List.all_eq_true] at hall
+  have := hall c hc
+  simp only [Bool.or_eq_true, beq_iff_eq] at this
+  rcases this with h1 | h1
+  · exact absurd h1 hx
+  · exact Wire.checkNoPermNoMutation_sound c.body h1 env h
+
+/-- witness: a highwater-mark update with a payload, no credentials accepted for
+anything, the update channel registered and not full: the value is sent to the CDC
+service. -/
+theorem no_unauthenticated_state_change_witness : ¬ no_unauthenticated_state_change_full := by
+  intro hfull
+  have hmem : (Wire.findCmd "HIGHWATER_MARK_UPDATE").isSome = true := by decide +kernel
+  match hf : Wire.findCmd "HIGHWATER_MARK_UPDATE", hmem with
+  | some c, _ =>
+    have hc : c ∈ Gen.ClusterCmds.cmds := List.mem_of_find?_eq_some hf
+    let env : Wire.Env := fun a => match a with | .other _ => true | _ => false
+    have := hfull c hc env (fun p => rfl)
+    have hw : (Wire.findCmd "HIGHWATER_MARK_UPDATE").map (fun c => Wire.noMutation (Wire.runCmd env c.body)) = some false := by
+      decide +kernel
+    rw [hf] at hw
+    simp only [Option.map_some, Option.some.injEq] at hw
+    rw [this] at hw
+    exact absurd hw (by decide)
+
 end C35
